@@ -63,6 +63,8 @@ def build(run):
     V1, V2 = ufl.FunctionSpace(m1, S.L(ufl.triangle, 1)), ufl.FunctionSpace(m2, S.L(ufl.triangle, 1))
     W1 = ufl.FunctionSpace(m1, S.L(ufl.triangle, 1, (2,)))
     dirs = [ufl.Coefficient(W1), ufl.Coefficient(W1)]
+    # coefficient-derivative mappings of a coordinate derivative (`derivative(F, X, V, coefficient_derivatives={fm: gm[j]})`): part of the identity of the derivative
+    fm, gm = ufl.Coefficient(V1), [ufl.Coefficient(W1), ufl.Coefficient(W1)]
     big = np.linspace(0.0, 1.0, 1200)
     big2 = big.copy()
     big2[600] += 0.25
@@ -109,8 +111,10 @@ def build(run):
             meas = ufl.Measure(t["itype"], domain=dom, subdomain_id=t["sid"], metadata=MDS[t["md"]])
             form = e * meas
             if t["cd"] is not None:
-                for k_ in (t["cd"] if isinstance(t["cd"], tuple) else (t["cd"],)):
-                    form = ufl.derivative(form, ufl.SpatialCoordinate(dom), dirs[k_])
+                for li, k_ in enumerate(t["cd"] if isinstance(t["cd"], tuple) else (t["cd"],)):
+                    cj = (t.get("cfd") or ())[li:li + 1]
+                    kw = {"coefficient_derivatives": {fm: gm[cj[0] - 1]}} if cj and cj[0] else {}
+                    form = ufl.derivative(form, ufl.SpatialCoordinate(dom), dirs[k_], **kw)
             integrals += list(form.integrals())
         return ufl.Form(integrals)
 
@@ -246,7 +250,7 @@ def build(run):
     T = templates(quick)
 
     def lab(ts):
-        return " + ".join(f"{t['itype']}{'@m2' if t['dom'] == 2 else ''}({t['sid']}){'[md%d]' % t['md'] if t['md'] else ''}{'[cd%s]' % (t['cd'],) if t['cd'] is not None else ''}" for t in ts)
+        return " + ".join(f"{t['itype']}{'@m2' if t['dom'] == 2 else ''}({t['sid']}){'[md%d]' % t['md'] if t['md'] else ''}{'[cd%s]' % (t['cd'],) if t['cd'] is not None else ''}{'[cfd%s]' % (t['cfd'],) if t.get('cfd') else ''}" for t in ts)
 
     # singles and all pairs, chunked
     pairs = [(a, b) for a in T for b in T]
@@ -263,6 +267,13 @@ def build(run):
     base_cd += [dict(t, md=mdi) for t in base_cd if t["md"] == 0 for mdi in (2, 3)]
     family_ob("shared-integrand pairs under coordinate derivatives", lambda: ((lab(p) + " (same integrand)", list(p), True) for p in itertools.product(base_cd, repeat=2)
                                                                               if p[0]["cd"] == p[1]["cd"]))
+    # coordinate derivatives that differ only in their coefficient-derivative mappings (one level: none / g1 / g2; two levels: the same two mappings in either
+    # order) are different derivatives: their integrands may be merged only when the whole stack agrees (round-11 seed c15-k and the defect repaired with it)
+    base_cfd = [{"sid": sid, "md": 0, "itype": "dx", "dom": 1, "cd": cd, "cfd": cfd} for sid in ("everywhere", 1)
+                for cd, cfd in ((0, (0,)), (0, (1,)), (0, (2,)), ((0, 1), (1, 2)), ((0, 1), (2, 1)), ((0, 1), (1, 1)), ((0, 1), (0, 1)), ((1, 0), (1, 2)))]
+    for shared in (False, True):
+        family_ob("coefficient-derivative mappings under coordinate derivatives" + (" (same integrand)" if shared else ""),
+                  lambda shared=shared: ((lab(p) + (" (same integrand)" if shared else ""), list(p), shared) for p in itertools.product(base_cfd, repeat=2)))
     rnd = random.Random(run.seed + 15)
     ntr = 400 if quick else 6000
     triples = [tuple(rnd.choice(T) for _ in range(3)) for _ in range(ntr)]
